@@ -157,6 +157,30 @@ func checkC08(c *Ctx) {
 	for _, f := range []*ssa.Function{sealF, openF} {
 		c.reachCountRule(p, "C08.seal", "exactly one increment and one nonce computation per operation", f, map[string]int{inc: 1, "(*hpke.encdecContext).calcNonce": 1})
 	}
+	// a ciphertext presented out of order (a failed open) must still be openable in its turn: the operation
+	// does not write the caller's ciphertext, plaintext or aad storage (decrypting in place would)
+	for _, f := range []*ssa.Function{sealF, openF} {
+		if f == nil {
+			continue
+		}
+		var bad []string
+		for _, w := range p.Mod().of(f) {
+			var i int
+			if _, err := fmt.Sscanf(w.Root, "param#%d", &i); err == nil && i >= 1 {
+				bad = append(bad, fmt.Sprintf("%s written at %s (%s)", f.Params[i].Name(), p.pos(w.Pos), w.Via))
+			}
+		}
+		rule := "C08.open"
+		if f == sealF {
+			rule = "C08.seal"
+		}
+		if len(bad) > 0 {
+			sort.Strings(bad)
+			c.bad(rule, fname(f)+": the caller's buffers are not written", strings.Join(bad, "; "), p.fnPos(f))
+		} else {
+			c.ok(rule, fname(f)+": the caller's buffers are not written", "mod-set contains no non-receiver parameter (AEAD destination is not the input)", p.fnPos(f))
+		}
+	}
 
 	// ---- overflow ----
 	incF := p.Func("hpke", "encdecContext", "increment")
